@@ -10,7 +10,7 @@ CHECKS = {
    design="4/C01"),
  "C02": dict(
    technique="tree-first generation with by-construction expected tree (proptest over choice tapes), exact model comparison across six decoding entry points",
-   text="A generated tree rendered in a generated spelling is decoded by ImDocument, DocumentMut, toml::Value, toml::Table, toml_edit::de::from_str/from_slice and compared exactly (float bits, key order) with the tree it was rendered from; 191 valid fixtures against their expected trees; mutated/corpus documents are compared with the reference inside C01's differential.",
+   text="A generated tree rendered in a generated spelling is decoded by ImDocument, DocumentMut, toml::Value, toml::Table, toml_edit::de::from_str/from_slice and compared exactly (float bits, key order) with the tree it was rendered from; 191 valid fixtures against their expected trees; a document containing a number no i64 / f64 holds must be refused; mutated/corpus documents are compared with the reference inside C01's differential.",
    note="expected values come from the harness' renderer (exact decimal re-spellings of std's shortest float digits); reference decoder must agree with the renderer (exit 2 otherwise)",
    design="4/C02"),
  "C03": dict(
